@@ -16,6 +16,9 @@
 #include <functional>
 #include <set>
 
+#if defined(__SANITIZE_ADDRESS__)
+#include <sanitizer/common_interface_defs.h>
+#endif
 #include <poll.h>
 #include <signal.h>
 #include <sys/resource.h>
@@ -1053,6 +1056,15 @@ ChildResult runIsolated(const std::function<void()> &body)
         res.normal = true;
         return res;
     }
+#if defined(__SANITIZE_ADDRESS__)
+    // Load the symbolizer's debug information once in the parent so that a dying child does not pay for it again.
+    static bool warmed = false;
+    if (!warmed) {
+        warmed = true;
+        char tmp[512];
+        __sanitizer_symbolize_pc(__builtin_return_address(0), "%f %s:%l", tmp, sizeof tmp);
+    }
+#endif
     int rp[2];
     int ep[2];
     if (pipe(rp) != 0 || pipe(ep) != 0) {
@@ -1269,6 +1281,232 @@ ModelPtr parseRoot(const std::string &dir, const Graph &g, const std::string &wh
 }
 
 // ------------------------------------------------------------------------------------------------ one scenario
+void scenarioBody(const Scenario &sc, bool strict, const std::string &dir, const std::string &base, const std::string &replay)
+{
+    const std::string &cls = sc.fault.cls;
+    const std::string mode = strict ? "strict" : "permissive";
+    std::string shape = sc.good.shape();
+    S("scenarios");
+    S("scenarios:" + cls);
+    S(strict ? "mode_strict" : "mode_permissive");
+    SEEN("fault_class", cls);
+    SEEN("graph_shape", shape);
+    SEEN("origin", sc.good.origin);
+    S("files_total", static_cast<int64_t>(sc.good.files.size()));
+    S("import_edges_total", static_cast<int64_t>(sc.good.importEdges()));
+
+    if (!writeScenarioFiles(dir, sc.bad, sc.text, sc.state)) {
+        viol("C07", "harness:cannot-write-files", dir, replay);
+        return;
+    }
+
+    // ---- reference verdict
+    Ref ref(sc.bad, sc.state, strict);
+    bool expected = ref.resolveRoot();
+    S(expected ? "expected_true" : "expected_false");
+    if (ref.cycle) {
+        S("reference_saw_import_cycle");
+    }
+    // sanity of the generator: the unfaulted graph must be resolvable
+    {
+        std::vector<int> allOk(sc.good.files.size(), ST_OK);
+        Ref r0(sc.good, allOk, strict);
+        if (!r0.resolveRoot()) {
+            viol("C07", "harness:base-graph-unresolvable", r0.why, replay);
+            return;
+        }
+    }
+    bool plainUnitsCycle = sc.fault.type == Fault::UCYC;
+    std::string ftag = cls + featureTag(sc.bad);
+
+    // ---- run the library
+    ModelPtr model = parseRoot(dir, sc.bad, "faulty", replay);
+    if (model == nullptr) {
+        return;
+    }
+    auto importer = Importer::create(strict);
+    STAGE("resolveImports:" + cls);
+    bool got = importer->resolveImports(model, base);
+    monLogger(*importer, "Importer::resolveImports", replay);
+    monExplained(!got, *importer, "Importer::resolveImports", replay);
+    S(got ? "got_true" : "got_false");
+    std::string resolveIssues = issueSummary(*importer, 12);
+    if (got != expected) {
+        S("verdict_disagree");
+        viol("C07", std::string("resolve-verdict:") + (expected ? "true" : "false") + "-got-" + (got ? "true" : "false") + ":" + ftag + ":" + mode,
+             std::string("reference resolver: ") + (expected ? "every transitive import of the root can be satisfied" : "unsatisfiable: " + ref.why)
+                 + "\nresolveImports returned " + (got ? "true" : "false") + "; importer issues:\n" + resolveIssues,
+             replay);
+    } else {
+        S("verdict_agree");
+        S(std::string("verdict_agree:") + (expected ? "true" : "false"));
+    }
+
+    auto flattenAndCheck = [&](bool expectSuccess, bool judge) {
+        STAGE("flattenModel:" + cls);
+        auto flat = importer->flattenModel(model);
+        monLogger(*importer, "Importer::flattenModel", replay);
+        monExplained(flat == nullptr, *importer, "Importer::flattenModel", replay);
+        S(flat != nullptr ? "flatten_nonnull" : "flatten_null");
+        if (!judge) {
+            S(flat != nullptr ? "flatten_unjudged_nonnull" : "flatten_unjudged_null");
+            if (flat != nullptr) {
+                STAGE("flat->hasImports:" + cls);
+                S(flat->hasImports() ? "flatten_unjudged_has_imports" : "flatten_unjudged_import_free");
+            }
+            return;
+        }
+        if (expectSuccess) {
+            if (flat == nullptr) {
+                viol("C07", "flatten-null-after-success:" + ftag, "resolveImports returned true (as the reference resolver expects) but flattenModel returned null:\n" + issueSummary(*importer), replay);
+            } else {
+                STAGE("flat->hasImports:" + cls);
+                if (flat->hasImports()) {
+                    viol("C07", "flatten-result-has-imports:" + ftag, "flattenModel returned a model that still has imports", replay);
+                } else {
+                    S("flatten_ok");
+                }
+            }
+        } else {
+            if (flat != nullptr) {
+                viol("C07", "flatten-nonnull-unresolvable:" + ftag, "imports are unsatisfiable (" + ref.why + ") but flattenModel returned a model", replay);
+            } else if (importer->issueCount() == 0) {
+                viol("C07", "flatten-null-no-issue:" + ftag, "flattenModel returned null without any issue", replay);
+            } else {
+                S("flatten_refused_with_issue");
+            }
+        }
+    };
+
+    if (got) {
+        if (sc.fault.flattenFirst) {
+            flattenAndCheck(true, expected && !plainUnitsCycle);
+        }
+        STAGE("hasUnresolvedImports:" + cls);
+        bool unresolved = model->hasUnresolvedImports();
+        if (unresolved) {
+            if (expected) {
+                viol("C07", "unresolved-after-success:" + ftag, "resolveImports returned true yet Model::hasUnresolvedImports() is true", replay);
+            } else {
+                S("unresolved_after_wrong_success");
+            }
+        } else {
+            S("resolved_after_success");
+        }
+        if (!sc.fault.flattenFirst) {
+            // with a plain units cycle the statement only promises termination of flattenModel
+            flattenAndCheck(true, expected && !plainUnitsCycle);
+        }
+    } else {
+        // at least one issue attached to the failing import
+        size_t n = importer->issueCount();
+        if (n == 0) {
+            viol("C07", "no-issue-on-failure:" + ftag, "resolveImports returned false with an empty issue list", replay);
+        } else if (!expected) {
+            bool attached = false;
+            bool related = false;
+            size_t rootAttached = 0;
+            std::set<int> rootWithIssue;
+            for (size_t i = 0; i < n; ++i) {
+                auto is = importer->issue(i);
+                auto item = is->item();
+                if (item == nullptr) {
+                    continue;
+                }
+                auto t = item->type();
+                SEEN("resolve_issue_item", cellmlElementTypeAsString(t) + "/" + levelName(is->level()) + "/" + ruleName(is->referenceRule()));
+                if (t == CellmlElementType::COMPONENT || t == CellmlElementType::UNITS) {
+                    bool isComp = t == CellmlElementType::COMPONENT;
+                    std::string nm = isComp ? (item->component() ? item->component()->name() : "") : (item->units() ? item->units()->name() : "");
+                    auto loc = locate(sc.bad, nm, isComp);
+                    if (loc.first >= 0 && ref.failing.count(loc)) {
+                        const Ent &E = sc.bad.files[static_cast<size_t>(loc.first)].ents[static_cast<size_t>(loc.second)];
+                        if (E.imp) {
+                            attached = true;
+                            if (loc.first == 0) {
+                                ++rootAttached;
+                                rootWithIssue.insert(loc.second);
+                            }
+                        } else {
+                            related = true;
+                        }
+                    }
+                } else if (t == CellmlElementType::IMPORT && item->importSource() != nullptr) {
+                    std::string url = item->importSource()->url();
+                    size_t sl = url.find_last_of('/');
+                    std::string bn = sl == std::string::npos ? url : url.substr(sl + 1);
+                    if (ref.failingHrefTargets.count(bn)) {
+                        attached = true;
+                    }
+                }
+            }
+            if (attached) {
+                S("failure_issue_attached");
+                if (rootWithIssue.size() < ref.failingRoot.size()) {
+                    S("failing_root_imports_without_own_issue", static_cast<int64_t>(ref.failingRoot.size() - rootWithIssue.size()));
+                }
+            } else if (related) {
+                S("unsure:issue-on-related-object");
+                SEEN("unsure", "issue-on-related-object:" + cls);
+            } else {
+                viol("C07", "issue-not-on-failing-import:" + ftag,
+                     "no importer issue is attached to an import on a failing chain (" + ref.why + "); issues:\n" + resolveIssues, replay);
+            }
+        }
+        flattenAndCheck(false, !expected);
+    }
+
+    // ---- recovery
+    if (sc.fault.type != Fault::NONE) {
+        std::vector<int> allOk(sc.good.files.size(), ST_OK);
+        std::vector<std::string> goodText;
+        for (size_t i = 0; i < sc.good.files.size(); ++i) {
+            goodText.push_back(writeFileText(sc.good, i, false));
+        }
+        if (!writeScenarioFiles(dir, sc.good, goodText, allOk)) {
+            viol("C07", "harness:cannot-write-files", dir, replay);
+            return;
+        }
+        // observed, not judged: retry on the same importer without clearing its library
+        {
+            ModelPtr m2 = parseRoot(dir, sc.good, "repaired", replay);
+            if (m2 == nullptr) {
+                return;
+            }
+            STAGE("retry-without-clear:" + cls);
+            bool r = importer->resolveImports(m2, base);
+            monLogger(*importer, "Importer::resolveImports", replay);
+            monExplained(!r, *importer, "Importer::resolveImports", replay);
+            S(std::string("retry_noclear_") + (r ? "ok" : "fail") + ":" + (got ? "after-success:" : "after-failure:") + cls);
+            S(std::string("retry_noclear_") + (r ? "ok" : "fail"));
+        }
+        S("recoveries_attempted");
+        STAGE("removeAllModels:" + cls);
+        importer->removeAllModels();
+        if (importer->libraryCount() != 0) {
+            viol("C07", "library-not-empty-after-removeAllModels", std::to_string(importer->libraryCount()), replay);
+        }
+        ModelPtr m3 = parseRoot(dir, sc.good, "repaired", replay);
+        if (m3 == nullptr) {
+            return;
+        }
+        STAGE("resolveImports-after-repair:" + cls);
+        bool r3 = importer->resolveImports(m3, base);
+        monLogger(*importer, "Importer::resolveImports", replay);
+        monExplained(!r3, *importer, "Importer::resolveImports", replay);
+        if (!r3) {
+            viol("C07", "no-recovery:" + ftag, "after repairing the file set and Importer::removeAllModels() a fresh resolveImports still fails:\n" + issueSummary(*importer), replay);
+        } else {
+            STAGE("hasUnresolvedImports-after-repair:" + cls);
+            if (m3->hasUnresolvedImports()) {
+                viol("C07", "unresolved-after-success:repaired:" + ftag, "after repair resolveImports returned true yet hasUnresolvedImports() is true", replay);
+            } else {
+                S("recoveries_succeeded");
+            }
+        }
+    }
+}
+
 void runScenario(Ctx &ctx, const Scenario &sc, bool strict)
 {
     const std::string &cls = sc.fault.cls;
@@ -1298,224 +1536,22 @@ void runScenario(Ctx &ctx, const Scenario &sc, bool strict)
     bool nontrivial = sc.good.files.size() >= 2 && sc.good.importEdges() >= 1;
     caseInfo(hex64(fnv1a(shape + "|" + cls + "|" + sc.fault.desc + "|" + mode)), nontrivial,
              sc.good.origin + " " + shape + " | fault: " + sc.fault.desc + " | " + mode);
-    stat("scenarios");
-    stat("scenarios:" + cls);
-    stat(strict ? "mode_strict" : "mode_permissive");
-    seen("fault_class", cls);
-    seen("graph_shape", shape);
-    seen("origin", sc.good.origin);
-    stat("files_total", static_cast<int64_t>(sc.good.files.size()));
-    stat("import_edges_total", static_cast<int64_t>(sc.good.importEdges()));
-
-    if (!writeScenarioFiles(dir, sc.bad, sc.text, sc.state)) {
-        viol("C07", "harness:cannot-write-files", dir, replay);
+    // Isolation costs a fork of an ASan process (several ms), so it is used where the statement's termination clause is
+    // at stake (import cycles, cyclic plain units); other scenarios run in-process under the supervisor's crash handling.
+    bool isolate = sc.fault.type == Fault::CYCLE || sc.fault.type == Fault::UCYC;
+    if (!isolate) {
+        scenarioBody(sc, strict, dir, base, replay);
+        stat("scenarios_completed");
         return;
     }
-
-    // ---- reference verdict
-    Ref ref(sc.bad, sc.state, strict);
-    bool expected = ref.resolveRoot();
-    stat(expected ? "expected_true" : "expected_false");
-    if (ref.cycle) {
-        stat("reference_saw_import_cycle");
-    }
-    // sanity of the generator: the unfaulted graph must be resolvable
-    {
-        std::vector<int> allOk(sc.good.files.size(), ST_OK);
-        Ref r0(sc.good, allOk, strict);
-        if (!r0.resolveRoot()) {
-            viol("C07", "harness:base-graph-unresolvable", r0.why, replay);
-            return;
-        }
-    }
-    bool plainUnitsCycle = sc.fault.type == Fault::UCYC;
-    std::string ftag = cls + featureTag(sc.bad);
-
-    // ---- run the library
-    ModelPtr model = parseRoot(dir, sc.bad, "faulty", replay);
-    if (model == nullptr) {
-        return;
-    }
-    auto importer = Importer::create(strict);
-    stage("resolveImports:" + cls);
-    bool got = importer->resolveImports(model, base);
-    monitorLogger(*importer, "Importer::resolveImports", replay);
-    monitorExplained(!got, *importer, "Importer::resolveImports", replay);
-    stat(got ? "got_true" : "got_false");
-    std::string resolveIssues = issueSummary(*importer, 12);
-    if (got != expected) {
-        stat("verdict_disagree");
-        viol("C07", std::string("resolve-verdict:") + (expected ? "true" : "false") + "-got-" + (got ? "true" : "false") + ":" + ftag + ":" + mode,
-             std::string("reference resolver: ") + (expected ? "every transitive import of the root can be satisfied" : "unsatisfiable: " + ref.why)
-                 + "\nresolveImports returned " + (got ? "true" : "false") + "; importer issues:\n" + resolveIssues,
-             replay);
+    stat("scenarios_isolated");
+    ChildResult r = runIsolated([&]() { scenarioBody(sc, strict, dir, base, replay); });
+    if (r.normal) {
+        stat("scenarios_completed");
     } else {
-        stat("verdict_agree");
-        stat(std::string("verdict_agree:") + (expected ? "true" : "false"));
-    }
-
-    auto flattenAndCheck = [&](bool expectSuccess, bool judge) {
-        stage("flattenModel:" + cls);
-        auto flat = importer->flattenModel(model);
-        monitorLogger(*importer, "Importer::flattenModel", replay);
-        monitorExplained(flat == nullptr, *importer, "Importer::flattenModel", replay);
-        stat(flat != nullptr ? "flatten_nonnull" : "flatten_null");
-        if (!judge) {
-            stat(flat != nullptr ? "flatten_unjudged_nonnull" : "flatten_unjudged_null");
-            if (flat != nullptr) {
-                stage("flat->hasImports:" + cls);
-                stat(flat->hasImports() ? "flatten_unjudged_has_imports" : "flatten_unjudged_import_free");
-            }
-            return;
-        }
-        if (expectSuccess) {
-            if (flat == nullptr) {
-                viol("C07", "flatten-null-after-success:" + ftag, "resolveImports returned true (as the reference resolver expects) but flattenModel returned null:\n" + issueSummary(*importer), replay);
-            } else {
-                stage("flat->hasImports:" + cls);
-                if (flat->hasImports()) {
-                    viol("C07", "flatten-result-has-imports:" + ftag, "flattenModel returned a model that still has imports", replay);
-                } else {
-                    stat("flatten_ok");
-                }
-            }
-        } else {
-            if (flat != nullptr) {
-                viol("C07", "flatten-nonnull-unresolvable:" + ftag, "imports are unsatisfiable (" + ref.why + ") but flattenModel returned a model", replay);
-            } else if (importer->issueCount() == 0) {
-                viol("C07", "flatten-null-no-issue:" + ftag, "flattenModel returned null without any issue", replay);
-            } else {
-                stat("flatten_refused_with_issue");
-            }
-        }
-    };
-
-    if (got) {
-        if (sc.fault.flattenFirst) {
-            flattenAndCheck(true, expected && !plainUnitsCycle);
-        }
-        stage("hasUnresolvedImports:" + cls);
-        bool unresolved = model->hasUnresolvedImports();
-        if (unresolved) {
-            if (expected) {
-                viol("C07", "unresolved-after-success:" + ftag, "resolveImports returned true yet Model::hasUnresolvedImports() is true", replay);
-            } else {
-                stat("unresolved_after_wrong_success");
-            }
-        } else {
-            stat("resolved_after_success");
-        }
-        if (!sc.fault.flattenFirst) {
-            // with a plain units cycle the statement only promises termination of flattenModel
-            flattenAndCheck(true, expected && !plainUnitsCycle);
-        }
-    } else {
-        // at least one issue attached to the failing import
-        size_t n = importer->issueCount();
-        if (n == 0) {
-            viol("C07", "no-issue-on-failure:" + ftag, "resolveImports returned false with an empty issue list", replay);
-        } else if (!expected) {
-            bool attached = false;
-            bool related = false;
-            size_t rootAttached = 0;
-            std::set<int> rootWithIssue;
-            for (size_t i = 0; i < n; ++i) {
-                auto is = importer->issue(i);
-                auto item = is->item();
-                if (item == nullptr) {
-                    continue;
-                }
-                auto t = item->type();
-                seen("resolve_issue_item", cellmlElementTypeAsString(t) + "/" + levelName(is->level()) + "/" + ruleName(is->referenceRule()));
-                if (t == CellmlElementType::COMPONENT || t == CellmlElementType::UNITS) {
-                    bool isComp = t == CellmlElementType::COMPONENT;
-                    std::string nm = isComp ? (item->component() ? item->component()->name() : "") : (item->units() ? item->units()->name() : "");
-                    auto loc = locate(sc.bad, nm, isComp);
-                    if (loc.first >= 0 && ref.failing.count(loc)) {
-                        const Ent &E = sc.bad.files[static_cast<size_t>(loc.first)].ents[static_cast<size_t>(loc.second)];
-                        if (E.imp) {
-                            attached = true;
-                            if (loc.first == 0) {
-                                ++rootAttached;
-                                rootWithIssue.insert(loc.second);
-                            }
-                        } else {
-                            related = true;
-                        }
-                    }
-                } else if (t == CellmlElementType::IMPORT && item->importSource() != nullptr) {
-                    std::string url = item->importSource()->url();
-                    size_t sl = url.find_last_of('/');
-                    std::string bn = sl == std::string::npos ? url : url.substr(sl + 1);
-                    if (ref.failingHrefTargets.count(bn)) {
-                        attached = true;
-                    }
-                }
-            }
-            if (attached) {
-                stat("failure_issue_attached");
-                if (rootWithIssue.size() < ref.failingRoot.size()) {
-                    stat("failing_root_imports_without_own_issue", static_cast<int64_t>(ref.failingRoot.size() - rootWithIssue.size()));
-                }
-            } else if (related) {
-                stat("unsure:issue-on-related-object");
-                seen("unsure", "issue-on-related-object:" + cls);
-            } else {
-                viol("C07", "issue-not-on-failing-import:" + ftag,
-                     "no importer issue is attached to an import on a failing chain (" + ref.why + "); issues:\n" + resolveIssues, replay);
-            }
-        }
-        flattenAndCheck(false, !expected);
-    }
-
-    // ---- recovery
-    if (sc.fault.type != Fault::NONE) {
-        std::vector<int> allOk(sc.good.files.size(), ST_OK);
-        std::vector<std::string> goodText;
-        for (size_t i = 0; i < sc.good.files.size(); ++i) {
-            goodText.push_back(writeFileText(sc.good, i, false));
-        }
-        if (!writeScenarioFiles(dir, sc.good, goodText, allOk)) {
-            viol("C07", "harness:cannot-write-files", dir, replay);
-            return;
-        }
-        // observed, not judged: retry on the same importer without clearing its library
-        {
-            ModelPtr m2 = parseRoot(dir, sc.good, "repaired", replay);
-            if (m2 == nullptr) {
-                return;
-            }
-            stage("retry-without-clear:" + cls);
-            bool r = importer->resolveImports(m2, base);
-            monitorLogger(*importer, "Importer::resolveImports", replay);
-            monitorExplained(!r, *importer, "Importer::resolveImports", replay);
-            stat(std::string("retry_noclear_") + (r ? "ok" : "fail") + ":" + (got ? "after-success:" : "after-failure:") + cls);
-            stat(std::string("retry_noclear_") + (r ? "ok" : "fail"));
-        }
-        stat("recoveries_attempted");
-        stage("removeAllModels:" + cls);
-        importer->removeAllModels();
-        if (importer->libraryCount() != 0) {
-            viol("C07", "library-not-empty-after-removeAllModels", std::to_string(importer->libraryCount()), replay);
-        }
-        ModelPtr m3 = parseRoot(dir, sc.good, "repaired", replay);
-        if (m3 == nullptr) {
-            return;
-        }
-        stage("resolveImports-after-repair:" + cls);
-        bool r3 = importer->resolveImports(m3, base);
-        monitorLogger(*importer, "Importer::resolveImports", replay);
-        monitorExplained(!r3, *importer, "Importer::resolveImports", replay);
-        if (!r3) {
-            viol("C07", "no-recovery:" + ftag, "after repairing the file set and Importer::removeAllModels() a fresh resolveImports still fails:\n" + issueSummary(*importer), replay);
-        } else {
-            stage("hasUnresolvedImports-after-repair:" + cls);
-            if (m3->hasUnresolvedImports()) {
-                viol("C07", "unresolved-after-success:repaired:" + ftag, "after repair resolveImports returned true yet hasUnresolvedImports() is true", replay);
-            } else {
-                stat("recoveries_succeeded");
-            }
-        }
+        stat("scenarios_ended_abnormally");
+        seen("abnormal_end", r.key);
+        viol("C07", r.key, r.report, replay);
     }
 }
 
